@@ -214,10 +214,12 @@ class XPathToken(Token[ta.XPathTokenType]):
 
         context.axis = None
         context.size = len(results)
-        for context.position, context.item in enumerate(results, start=1):
-            yield context.item
-
-        context.item, context.size, context.position, context.axis = status
+        try:
+            for context.position, context.item in enumerate(results, start=1):
+                yield context.item
+        finally:
+            # also when the consumer stops early (fn:boolean on a node sequence, fn:head, ...)
+            context.item, context.size, context.position, context.axis = status
 
     def select_results(self, context: ta.ContextType) -> Iterator[ta.ResultType]:
         """
